@@ -26,6 +26,7 @@ func c16(c *Ctx) {
 		n = 20000
 	}
 	var rows []string
+	var locals []operand.Mem
 	kinds := map[string]int{}
 	for j := 0; j < n; j++ {
 		ctx := build.NewContext()
@@ -83,6 +84,9 @@ func c16(c *Ctx) {
 			ctx.MOVQ(reg.RAX, m)
 			sizes = append(sizes, int64(sz))
 			offs = append(offs, int64(m.Disp))
+			if len(locals) < 150 && (m.Disp != 0 || len(locals)%4 == 0) {
+				locals = append(locals, m)
+			}
 		}
 		emit()
 		emit()
@@ -135,6 +139,8 @@ func c16(c *Ctx) {
 	o.Stage("Cases.v")
 	o.ExpectEmpty("Cases.v", "R_mismatch", "mismatch", "bump-allocator model vs Context.AllocLocal offsets and the frame size on the TEXT line")
 	o.ExpectEmpty("Cases.v", "R_violation", "violation", "a returned local region leaves the declared frame, overlaps another region, or meets the frame-pointer save slot")
+	// addressing inside a local: the regions, offset and indexed through the operand helpers
+	memHelperFile(o, NewRNG(c.Seed+1601), 3*len(locals), locals, "MemOps.v")
 	o.Plan.Rule = "random histories of 0..7 AllocLocal calls (sizes 0, unaligned 1..7, 8, multiples of 8, arbitrary up to 100) interleaved with instruction emission, with and without a write to the base pointer; compiled with pass.Compile and printed; non-trivial = at least two allocations; distinct by (sizes, clobber)"
 	o.Plan.Stats["histories"] = n
 	o.Plan.Stats["shape"] = kinds
